@@ -1,5 +1,6 @@
 import ShroudVerif.Lemmas.DeclRound
 import ShroudVerif.Lemmas.DeclMeaning
+import ShroudVerif.Lemmas.ArgMeaning
 import ShroudVerif.Gen.DeclTables
 /-!
 # C09  Declarations are understood as a C++ compiler understands them
@@ -22,8 +23,12 @@ under the hypothesis `BaseAgrees env` (the typemap selected for a built-in speci
 the C++ type the standard gives that multiset; checked exhaustively for the extracted environment
 by the harness through the driver op `fund`, not in Lean).  `cxxMeaning` itself is validated
 against g++ on generated declarations (driver op `meaning`, `is_same` oracle).
-NOT proved: the same statements for the `gen_arg_as_cxx` / `gen_arg_as_c` token renderings
-(`argToks`, `toC`); those are covered by the g++/gcc oracle only.
+Clause (2) for the `gen_arg_as_cxx` / `gen_arg_as_c` renderings: `denote_argToks_cxx_object_partial`
+and `denote_argToks_c_object_partial`, for OBJECT declarations (no parameter list: pointer /
+reference / array chains with cv at every level, nested parenthesised declarators); `_partial`
+because function declarators are left to the g++/gcc oracle, and because the typemap's C++ / C
+type tokens are assumed to be read by the reference semantics as the stated base type
+(hypothesis `hmean`; discharged by `rfl` for concrete types of the extracted environment below).
 -/
 namespace Shroud.Decl
 
@@ -89,6 +94,104 @@ theorem parse_agrees_with_cxx_partial (env : Env) (hv : EnvVoid env) (hb : BaseA
   obtain ⟨T, h1, h2⟩ := denote_toks env hb d wf rp
   simp [h1, h2]
 
+/-! ### (2) the prototype renderings `gen_arg_as_cxx` / `gen_arg_as_c` -/
+
+open Shroud.Cxx in
+theorem argToks_object (env : Env) (asC : Bool) (s : Spec) (dr : Option Declarator) (fc : Bool) (arr : List Expr)
+    (attrs : List (Str × AttrVal)) (init : Option Init) (ti : TypeInfo) (ht : s.targs = [])
+    (hti : env.typeInfo s.typemap = some ti) (hty : (if asC then ti.cType else ti.cxxType).isSome) :
+    (Decl.mk s dr none fc arr attrs init).argToks env asC
+      = some (cvToks s.const s.volatile ++ (if asC then ti.cToks else ti.cxxToks)
+          ++ dtoksC asC dr ++ arraysToks arr) := by
+  obtain ⟨x, hx⟩ := Option.isSome_iff_exists.mp hty
+  simp [Decl.argToks, argHead, argParamsToks, ht, hti, hx]
+
+open Shroud.Cxx in
+/-- **(2) C++ prototype rendering, object declarations.**  The token list of `gen_arg_as_cxx`
+    is read by the reference semantics as the name of `d` with the type `d` denotes. -/
+theorem denote_argToks_cxx_object_partial (env : Env) (d : Decl) (wf : WF env d) (rp : RP d)
+    (hobj : d.params = none) (ti : TypeInfo) (hti : env.typeInfo d.spec.typemap = some ti)
+    (hty : ti.cxxType.isSome) (b : CxxType) (hb : denoteBase env d.spec = some b)
+    (hmean : ∀ rest, SpecStop env rest → ∃ acc,
+      cxxSpec env (cvToks d.spec.const d.spec.volatile ++ ti.cxxToks ++ rest) {} = (acc, rest) ∧ acc.base = some b) :
+    ∃ toks T, d.argToks env false = some toks ∧ denote env d = some T ∧
+      cxxMeaning env toks = some (declName d, T) := by
+  obtain ⟨s, dr, params, fc, arr, attrs, init⟩ := d
+  simp only [Decl.params] at hobj
+  subst hobj
+  simp only [Decl.spec] at hti hb hmean
+  simp only [WF] at wf
+  obtain ⟨hs, hd, harr, _, _, _, _⟩ := wf
+  simp only [RP] at rp
+  have ht : s.targs = [] := hs.1
+  refine ⟨_, _, argToks_object env false s dr fc arr attrs init ti ht hti (by simpa using hty),
+    denote_mk env s dr none fc arr attrs init b [] hb rfl, ?_⟩
+  have := objectMeaning env (cvToks s.const s.volatile ++ ti.cxxToks) b dr arr
+    (fun rest h => by simpa [List.append_assoc] using hmean rest h)
+    (fun d' h => ⟨hd d' h, rp.1 d' h⟩) harr
+  cases dr <;> simpa [tailToks, dtoks, dtoksC, ptoks, declName, List.append_assoc] using this
+
+open Shroud.Cxx in
+/-- **(2) C prototype rendering, object declarations.**  The token list of `gen_arg_as_c` is read
+    as a C declaration of the same name whose type is the derivation of `d` with every reference
+    turned into a pointer (`toC`), over the typemap's C type `cb`. -/
+theorem denote_argToks_c_object_partial (env : Env) (d : Decl) (wf : WF env d) (rp : RP d)
+    (hobj : d.params = none) (ti : TypeInfo) (hti : env.typeInfo d.spec.typemap = some ti)
+    (hty : ti.cType.isSome) (b cb : CxxType) (hb : denoteBase env d.spec = some b) (hcb : cb.hasRef = false)
+    (hmean : ∀ rest, SpecStop env rest → ∃ acc,
+      cxxSpec env (cvToks d.spec.const d.spec.volatile ++ ti.cToks ++ rest) {} = (acc, rest) ∧ acc.base = some cb) :
+    ∃ toks ops, d.argToks env true = some toks ∧ denote env d = some (applyOps b ops) ∧
+      toC (applyOps b ops) = applyOps (toC b) (ops.map toCOp) ∧
+      cMeaning env toks = some (declName d, applyOps cb (ops.map toCOp)) := by
+  obtain ⟨s, dr, params, fc, arr, attrs, init⟩ := d
+  simp only [Decl.params] at hobj
+  subst hobj
+  simp only [Decl.spec] at hti hb hmean
+  simp only [WF] at wf
+  obtain ⟨hs, hd, harr, _, _, _, _⟩ := wf
+  simp only [RP] at rp
+  have ht : s.targs = [] := hs.1
+  refine ⟨_, denOps dr (arrOps arr), argToks_object env true s dr fc arr attrs init ti ht hti (by simpa using hty),
+    denote_mk env s dr none fc arr attrs init b [] hb rfl, toC_applyOps _ _, ?_⟩
+  have hm := objectMeaning env (cvToks s.const s.volatile ++ ti.cToks) cb (dr.map toStarD) arr
+    (fun rest h => by simpa [List.append_assoc] using hmean rest h)
+    (fun d' h => by
+      cases dr with
+      | none => cases h
+      | some d0 =>
+        simp only [Option.map] at h
+        cases h
+        exact ⟨WFD_toStar env d0 (hd d0 rfl), refsPlainD_toStar d0⟩) harr
+  have hops := denOps_toStar dr arr (fun d' h => rp.1 d' h)
+  have hname : (dr.map toStarD).bind declaratorName = dr.bind declaratorName := by
+    cases dr with
+    | none => rfl
+    | some d0 => simp [name_toStar]
+  have htoks : tailToks (dr.map toStarD) none false arr = dtoksC true dr ++ arraysToks arr := by
+    cases dr with
+    | none => simp [tailToks, dtoks, dtoksC, ptoks]
+    | some d0 => simp [tailToks, dtoks, dtoksC, ptoks, toks_true]
+  rw [htoks, hname] at hm
+  unfold cMeaning
+  simp only [arrOps] at hops
+  simp only [List.append_assoc, if_true] at hm ⊢
+  rw [hm]
+  have hr := hasRef_applyOps _ (denOps_star_kinds dr arr) cb
+  simp only [arrOps] at hr
+  rw [hops]
+  simp [hr, hcb, declName, arrOps]
+
+open Shroud.Cxx in
+/-- the hypothesis `hmean` holds when the typemap's type text is a list of built-in specifier
+    keywords whose standard meaning is `n` -/
+theorem specMeans_builtin (env : Env) (c v : Bool) (l : List Str) (n : Str)
+    (hl : ∀ x ∈ l, classify x = .TYPE_SPECIFIER) (hf : fundName l = some n) :
+    ∀ rest, SpecStop env rest → ∃ acc,
+      cxxSpec env (cvToks c v ++ l.map nameTok ++ rest) {} = (acc, rest) ∧ acc.base = some (.base c v (.fund n)) := by
+  intro rest hstop
+  rw [List.append_assoc, cxxSpec_cv, cxxSpec_specifiers env _ l _ hl rfl, cxxSpec_stop env _ rest hstop]
+  exact ⟨_, rfl, by simp [SpecAcc.base, hf]⟩
+
 /-! ### non-vacuity: concrete well-formed declarations in the environment extracted from Shroud -/
 
 open Shroud.Gen.DeclTables in
@@ -146,6 +249,44 @@ open Shroud.Gen.DeclTables Shroud.Cxx in
 example : cxxMeaning defaultEnv exFun.toks
     = some (some (sp "f"), .ptr false false (.func (.base false false (.named (sp "size_t")))
         [.ptr false false (.base true false (.fund (sp "char"))), .base false false (.fund (sp "int"))] true)) := by rfl
+
+open Shroud.Gen.DeclTables Shroud.Cxx in
+/-- `gen_arg_as_cxx` / `gen_arg_as_c` of `exVar` (`const unsigned long * const * volatile & x[3][n]`):
+    the hypotheses of the two rendering theorems hold in the extracted environment -/
+example : ∃ ti, defaultEnv.typeInfo exVar.spec.typemap = some ti ∧ ti.cxxType.isSome ∧ ti.cType.isSome ∧
+    ti.cxxToks = [sp "unsigned", sp "long"].map nameTok ∧ ti.cToks = [sp "unsigned", sp "long"].map nameTok ∧
+    fundName [sp "unsigned", sp "long"] = some (sp "unsigned long") ∧
+    denoteBase defaultEnv exVar.spec = some (.base true false (.fund (sp "unsigned long"))) := by
+  refine ⟨_, rfl, rfl, rfl, rfl, rfl, by decide, rfl⟩
+
+open Shroud.Gen.DeclTables Shroud.Cxx in
+/-- the C rendering `const unsigned long * const * volatile * x[3][n]` read as C: the reference became a pointer -/
+example : (exVar.argToks defaultEnv true).bind (cMeaning defaultEnv)
+    = some (some (sp "x"), .arr (sp "3") (.arr (sp "n") (.ptr false false (.ptr false true (.ptr true false
+        (.base true false (.fund (sp "unsigned long")))))))) := by rfl
+
+/-! ### witnesses of the open findings (outside `WF`): Shroud's reading differs from C++ -/
+
+open Shroud.Gen.DeclTables Shroud.Cxx in
+/-- `unsigned long size_t` (finding `meaning:name-is-a-type`): C++ declares a variable named
+    size_t of type unsigned long; Shroud records an unnamed declaration of type size_t -/
+example :
+    cxxMeaning defaultEnv [tk .TYPE_SPECIFIER "unsigned", tk .TYPE_SPECIFIER "long", tk .ID "size_t"]
+      = some (some (sp "size_t"), .base false false (.fund (sp "unsigned long")))
+    ∧ (match parse defaultEnv [tk .TYPE_SPECIFIER "unsigned", tk .TYPE_SPECIFIER "long", tk .ID "size_t"] with
+       | .ok d => (denote defaultEnv d, declName d) = (some (.base false false (.named (sp "size_t"))), none)
+       | _ => False) := by
+  constructor <;> rfl
+
+open Shroud.Gen.DeclTables Shroud.Cxx in
+/-- `int ( )` (finding `meaning:abstract-function-parens`): a function type in C++, plain `int` for Shroud -/
+example :
+    cxxMeaning defaultEnv [tk .TYPE_SPECIFIER "int", tk .LPAREN "(", tk .RPAREN ")"]
+      = some (none, .func (.base false false (.fund (sp "int"))) [] false)
+    ∧ (match parse defaultEnv [tk .TYPE_SPECIFIER "int", tk .LPAREN "(", tk .RPAREN ")"] with
+       | .ok d => denote defaultEnv d = some (.base false false (.fund (sp "int")))
+       | _ => False) := by
+  constructor <;> rfl
 
 open Shroud.Cxx in
 example : RP exVar := by
